@@ -88,6 +88,11 @@ def run(tier):
                 changed = [k for k, (w, t) in so.cells.items() if not unchanged_cell(s, k, w, t)]
                 rep.check(not changed, 'R03.4', region + '|hello-store', 'a received Hello modifies the interface record at offsets %s' % [k[1] for k in changed],
                           function='parseFrame', file='lltdResponder/lltdBlock.c')
+    # "in every state reachable by any prefix" starts at the empty prefix: the record a first frame creates must be the
+    # all-zero "no mapper, no generation" record the Discover cells were analysed from (mapper_known == 0 admits the sender)
+    from .state_record import check_state_for_iface
+    rep.rule('R03.5', 'the record created for an interface\'s first frame is entirely zero (no mapper known, no stored generation) and keyed by the context', floor=3)
+    check_state_for_iface(rep, fs.prog, 'R03.5')
     rep.analysed.update({'accepting_paths': accepted})
     return finish(rep, 'proof',
                   'Origin analysis of the bytes of the single frame transmitted on every accepting path of the two Discover cells (all states: no mapper / same mapper, '
